@@ -436,7 +436,11 @@ class Sim(object):
             sid = spec['slot']
             obj = c.slots.get(sid)
             mode = spec['mode']
-            if mode == 'feedback' and c.last_out is not None and self._compatible(c.last_out[0], spec):
+            if (mode == 'feedback' and c.last_out is not None and self._compatible(c.last_out[0], spec)
+                    and self._contiguous(c.last_out[0])):
+                # (only C-contiguous objects: NumPy's vectorised loops and its strided loops may
+                # round differently in the last bit, so an equal-valued input with another memory
+                # layout is not "the same argument" for a bit-exact comparison)
                 obj = c.last_out[0]
             elif mode == 'same' and obj is not None:
                 pass
@@ -452,6 +456,10 @@ class Sim(object):
             c.slots[sid] = obj
             xs.append(obj)
         return xs
+
+    def _contiguous(self, obj):
+        a = obj if isinstance(obj, numpy.ndarray) else obj.data
+        return bool(a.flags['C_CONTIGUOUS'])
 
     def _compatible(self, obj, spec):
         a = numpy.shape(spec['val'])
